@@ -8,45 +8,11 @@ namespace CL.Entry
 
 open CL CL.Sel
 
+/-- `Gi.parseAll` skips the lines pathspec ignores (blank lines, `#` comments) and reads every
+other line with `Gi.Pat.parse` (`Lemmas/Gitignore.lean`) -/
 theorem parseAll_eq_some_iff {l : List Str} {ps : List Gi.Pat} :
-    Gi.parseAll l = some ps ↔ l.map Gi.Pat.parse = ps.map some := by
-  induction l generalizing ps with
-  | nil =>
-    cases ps with
-    | nil => simp [Gi.parseAll]
-    | cons q qs => simp [Gi.parseAll]
-  | cons s r ih =>
-    simp only [Gi.parseAll, List.map_cons]
-    cases hs : Gi.Pat.parse s with
-    | none =>
-      cases ps with
-      | nil => simp
-      | cons q qs => simp
-    | some q =>
-      cases hr : Gi.parseAll r with
-      | none =>
-        cases ps with
-        | nil => simp
-        | cons q' qs =>
-          simp only [List.map_cons, List.cons.injEq, Option.some.injEq]
-          constructor
-          · intro h; cases h
-          · rintro ⟨_, h⟩
-            rw [← ih] at h
-            rw [hr] at h; cases h
-      | some qs =>
-        have := (ih (ps := qs)).1 hr
-        cases ps with
-        | nil => simp
-        | cons q' qs' =>
-          simp only [Option.some.injEq, List.cons.injEq, List.map_cons]
-          constructor
-          · rintro ⟨rfl, rfl⟩; exact ⟨rfl, this⟩
-          · rintro ⟨rfl, h⟩
-            refine ⟨rfl, ?_⟩
-            have h' := (ih (ps := qs')).2 h
-            rw [hr] at h'
-            exact Option.some.inj h'
+    Gi.parseAll l = some ps ↔ (l.filter (fun s => !Gi.ignoredLine s)).map Gi.Pat.parse = ps.map some :=
+  Gi.parseAll_eq_some_iff l ps
 
 /-- the patterns of a parsed list are the parsed lines -/
 theorem mem_of_parseAll {l : List Str} {ps : List Gi.Pat} (h : Gi.parseAll l = some ps) (q : Gi.Pat) :
@@ -57,24 +23,31 @@ theorem mem_of_parseAll {l : List Str} {ps : List Gi.Pat} (h : Gi.parseAll l = s
     have : some q ∈ ps.map some := List.mem_map.2 ⟨q, hq, rfl⟩
     rw [← hm] at this
     obtain ⟨x, hx, hxq⟩ := List.mem_map.1 this
-    exact ⟨x, hx, hxq⟩
+    exact ⟨x, (List.mem_filter.1 hx).1, hxq⟩
   · rintro ⟨x, hx, hxq⟩
-    have : some q ∈ l.map Gi.Pat.parse := List.mem_map.2 ⟨x, hx, hxq⟩
+    have hni : Gi.ignoredLine x = false := Gi.parse_some_not_ignored hxq
+    have : some q ∈ (l.filter (fun s => !Gi.ignoredLine s)).map Gi.Pat.parse :=
+      List.mem_map.2 ⟨x, List.mem_filter.2 ⟨hx, by simp [hni]⟩, hxq⟩
     rw [hm] at this
     obtain ⟨q', hq', h'⟩ := List.mem_map.1 this
     cases h'; exact hq'
 
-theorem parseAll_isSome_iff {l : List Str} : (Gi.parseAll l).isSome ↔ ∀ x ∈ l, (Gi.Pat.parse x).isSome := by
+theorem parseAll_isSome_iff {l : List Str} :
+    (Gi.parseAll l).isSome ↔ ∀ x ∈ l, Gi.ignoredLine x = true ∨ (Gi.Pat.parse x).isSome := by
   induction l with
   | nil => simp [Gi.parseAll]
   | cons s r ih =>
-    simp only [Gi.parseAll, List.mem_cons, forall_eq_or_imp]
-    cases hs : Gi.Pat.parse s with
-    | none => simp
-    | some q =>
-      cases hr : Gi.parseAll r with
-      | none => rw [hr] at ih; simp only [Option.isSome_none, Bool.false_eq_true, false_iff] at ih; simp [ih]
-      | some qs => rw [hr] at ih; simp only [Option.isSome_some, true_iff] at ih; simpa using ih
+    simp only [List.mem_cons, forall_eq_or_imp]
+    cases hi : Gi.ignoredLine s with
+    | true => rw [Gi.parseAll_cons_ignored hi, ih]; simp
+    | false =>
+      rw [Gi.parseAll_cons_kept hi]
+      cases hs : Gi.Pat.parse s with
+      | none => simp
+      | some q =>
+        cases hr : Gi.parseAll r with
+        | none => rw [hr] at ih; simp only [Option.isSome_none, Bool.false_eq_true, false_iff] at ih; simp [ih]
+        | some qs => rw [hr] at ih; simp only [Option.isSome_some, true_iff] at ih; simpa using ih
 
 /-- **two lists with the same lines (in any order, with any repetitions) parse to pattern lists
 with the same patterns** -/
